@@ -38,7 +38,7 @@ PROPS = {
     'C11': {
         'steps': [{'script': 'corr_recipe.py', 'timeout': 900,
                    'timeout_thorough': 3000}],
-        'required_theorems': ['C11_get_is_last_applicable', 'C11_reachable_inv',
+        'required_theorems': ['C11_load_forgets_previous_rules', 'C11_get_is_last_applicable', 'C11_reachable_inv',
                               'C11_add_model'],
         'rule': ('histories over add/load/get/need_calibration: exhaustive over a '
                  '25-letter alphabet (2 regexes x 3 op selectors x 4 config/algorithm '
